@@ -703,7 +703,28 @@ func intValue(d core.Dec) (bool, *big.Int) {
 	return true, v
 }
 
-func TestC12(t *testing.T)       { selfCheck(t); core.Run(t, "C12", genCase, check) }
+// enumerated covers the places where an argument or 10^-Precision leaves the range of a float64
+// (1E-308 normal, 5E-324 denormal): a working quantity computed in float64 changes character
+// there, at one or two precisions and over a decade or two of arguments, which a uniform draw of
+// Precision and exponent meets only once in thousands of cases of the high-precision class.
+func enumerated() []arith.Case {
+	var out []arith.Case
+	for _, p := range []uint32{306, 307, 308, 309, 310, 322, 323, 324, 325} {
+		for dk := -3; dk <= 1; dk++ {
+			for _, co := range []string{"1", "17", "5"} {
+				for _, neg := range []bool{false, true} {
+					out = append(out, arith.Case{Op: "exp",
+						Ctx:  core.Ctx{P: p, Emax: 1000, Emin: -1000, Rounding: "half_even"},
+						X:    core.Dec{Coeff: co, Exp: -int32(int(p) + dk) - int32(len(co)) + 1, Neg: neg},
+						Note: "f64edge"})
+				}
+			}
+		}
+	}
+	return out
+}
+
+func TestC12(t *testing.T)       { selfCheck(t); core.RunPre(t, "C12", enumerated(), genCase, check) }
 func TestC12Replay(t *testing.T) { core.Replay(t, "C12", check) }
 
 // selfCheck validates the enclosures against known digits before they are trusted.
